@@ -1,17 +1,13 @@
-use aranya_policy_compiler::Compiler;
-use aranya_policy_lang::lang::parse_policy_document;
-use aranya_runtime::vm_policy::testing::TestFfiEnvelope;
-use aranya_policy_vm::ffi::FfiModule;
+//! fact-check: C29 (policy fact queries vs. a model fact store, through the real runtime).
+mod c29;
+mod schema;
+mod sys;
+mod util;
 
 fn main() {
-    let path = std::env::args().nth(1).unwrap();
-    let doc = std::fs::read_to_string(path).unwrap();
-    let ast = match parse_policy_document(&doc) {
-        Ok(a) => a,
-        Err(e) => { println!("PARSE ERROR: {e}"); return; }
-    };
-    match Compiler::new(&ast).ffi_modules(&[TestFfiEnvelope::SCHEMA]).compile() {
-        Ok(_m) => println!("compiled"),
-        Err(e) => println!("COMPILE ERROR: {e}"),
+    let args = mcx::parse_args();
+    match args.prop.as_str() {
+        "C29" => c29::run(&args),
+        p => mcx::machinery_error(&format!("fact-check does not serve {p}")),
     }
 }
